@@ -88,9 +88,14 @@ def enumeration_modes(repo, chk):
             why = (f'in {mode[0]}/{mode[1] or "any"} mode the evaluated pairs must be exactly {sorted(map(str, exp))}; ' + '; '.join(bits) +
                    ' (self-pairs come from combinations_with_replacement; relation features pair with the label only; target-only keeps exactly the pairs containing the label)')
         chk.expect(ok, 'C06.2', 'R15', site, desc, 'enumeration is the stated one for this mode', why)
-    for need in (('plain', 'pairwise'), ('plain', 'target-only')):
-        chk.expect(need in seen_modes, 'C06.2m', 'R7', fn.site(), f'mode {need}', 'mode has its own enumeration path', f'no enumeration path for mode {need} was found')
-    chk.expect(any(m[0] == '3mr' for m in seen_modes), 'C06.2m', 'R7', fn.site(), 'mode 3mr', '3MR has its own enumeration path', 'no enumeration path for 3MR heuristics was found')
+    undecided = bool(ea.problems) or any(o.oid == 'C06.2' and o.status == 'inconclusive' for o in chk.obs)
+    for need, have in ((('plain', 'pairwise'), ('plain', 'pairwise') in seen_modes), (('plain', 'target-only'), ('plain', 'target-only') in seen_modes), (('3mr', None), any(m[0] == '3mr' for m in seen_modes))):
+        if have:
+            chk.ok('C06.2m', 'R7', fn.site(), f'mode {need}', 'mode has its own enumeration path')
+        elif undecided:
+            chk.unsure('C06.2m', 'R7', fn.site(), f'mode {need}', 'no path was classified as this mode, but some paths of the enumeration could not be classified at all')
+        else:
+            chk.bad('C06.2m', 'R7', fn.site(), f'mode {need}', f'no enumeration path for mode {need} was found')
     # the function is applied to the batch's own columns
     mrg = repo.func(CR, 'mixed_rank_graph')
     cs = [c for c in calls(mrg) if mrg.module.dotted(c.func) == f'{CR}.get_combinations_from_columns']
@@ -147,6 +152,8 @@ def mirroring(repo, chk):
             if R is None:
                 if M.constant_rows(p.rows) is not None:
                     chk.bad('C06.1d', 'R14', site, shown, "the zero-score shortcut must be taken exactly for `args.heuristic == 'Constant'`: here a scoring heuristic emits single, unmirrored rows with score 0")
+                elif M.pool_results(p.rows) is not None and p.assumed_empty(p.rows):
+                    chk.ok('C06.1a', 'tuple-shape', site, shown, 'on this path the list of results is empty: returning it as it is equals the mirrored list')
                 elif M.pool_results(p.rows) is not None:
                     chk.bad('C06.1a', 'tuple-shape', site, shown, 'the results of the pool are returned as they are: the mirrored orientation (t[1], t[0], t[2]) of every evaluated pair is missing')
                 elif p.rows[0] in ('listcomp', 'genexp') and p.rows[2] and M.pool_results(p.rows[2][0][0]) is not None:
@@ -203,47 +210,77 @@ def names(repo, chk):
             ok = isinstance(e[0], ast.Name) and isinstance(e[1], ast.Name) and e[0].id == a and e[1].id == b and not rebinding
         else:
             ok = ast.unparse(e[0]) == f'{comb}[0]' and ast.unparse(e[1]) == f'{comb}[1]'
+    elif len(rets) == 1 and isinstance(rets[0].value, ast.Tuple) and len(rets[0].value.elts) == 2 and isinstance(rets[0].value.elts[0], ast.Starred):
+        # (*combination, score): the two names of the pair, in order
+        st0 = rets[0].value.elts[0].value
+        ok = isinstance(st0, ast.Name) and st0.id == comb and not [n for n in own_nodes(fn.node) if isinstance(n, ast.Assign) and any(isinstance(t, ast.Name) and t.id == comb for t in n.targets)]
     chk.expect(ok, 'C06.4', 'origin', fn.site(rets[0]) if rets else fn.site(), ast.unparse(rets[0]) if rets else 'return', 'a triplet carries the two names of the evaluated combination in their original order',
                'the worker must return (combination[0], combination[1], score): names in the row must be those of the evaluated pair, in order')
 
 
 def cap_only(repo, chk):
-    """The sampler reduces the candidate list only by the cap: what it returns is a prefix (length cap) of a permutation of the
-    candidate list.  (Which candidates survive - least evaluated first - is C07's concern.)"""
-    fn = repo.func(CR, 'prior_combinations_sample')
-    cands, args = fn.params[0], fn.params[1]
-    rets = [r for r in returns(fn) if not (isinstance(r.value, (ast.List, ast.Tuple)) and not r.value.elts)]
-    if len(rets) != 1 or not isinstance(rets[0].value, ast.Name):
-        chk.unsure('C06.3s', 'R15', fn.site(), 'return <selected>', 'the sampler does not return a single named list')
-        return
-    sel = rets[0].value.id
-    defs = [n for n in own_nodes(fn.node) if isinstance(n, ast.Assign) and any(isinstance(t, ast.Name) and t.id == sel for t in n.targets)]
-    edits = [n for n in own_nodes(fn.node) if isinstance(n, ast.Call) and isinstance(n.func, ast.Attribute) and isinstance(n.func.value, ast.Name) and n.func.value.id == sel and n.func.attr in ('append', 'extend', 'remove', 'pop', 'insert', 'clear')]
-    if len(defs) != 1 or edits:
-        chk.unsure('C06.3s', 'R15', fn.site(defs[0]) if defs else fn.site(), f'{sel} = <permutation of the candidates>[:cap]', 'the returned list is built in several steps / edited: it cannot be shown statically to be the candidate list reduced only by the cap')
-        return
-    v = defs[0].value
-    cap = f'{args}.combination_number_upper_bound'
-    ok = False
-    why = ''
+    """The sampler reduces the candidate list only by the cap: what it returns is a prefix (length cap) of a re-ordering of the
+    candidate list.  (Which candidates survive - least evaluated first - is C07's concern.)  Decided on the path model of the sampler."""
+    from .c07 import sampler_model
+    from ..terms import pattern, unify, walk_term
+    fn, paths = sampler_model(repo)
     m = fn.module
-    if isinstance(v, ast.Subscript) and isinstance(v.slice, ast.Slice) and v.slice.lower is None and v.slice.step is None and v.slice.upper is not None and ast.unparse(v.slice.upper) == cap:
-        base = v.value
-        # permutations of the candidate list: the list itself, sorted(list, ...), list(reversed(list)), random.sample(list, len(list))
-        if isinstance(base, ast.Name) and base.id == cands:
-            ok = True
-        elif isinstance(base, ast.Call) and isinstance(base.func, ast.Name) and base.func.id in ('sorted', 'list', 'reversed') and base.args and isinstance(base.args[0], ast.Name) and base.args[0].id == cands:
-            ok = True
-        elif isinstance(base, ast.Call) and isinstance(base.func, ast.Name) and base.func.id in ('sorted', 'list') and base.args and isinstance(base.args[0], ast.Name) \
-                and any(isinstance(n, ast.Assign) and isinstance(n.targets[0], ast.Name) and n.targets[0].id == base.args[0].id and ast.unparse(n.value) in (f'set({cands})', f'list({cands})', f'list(set({cands}))', f'tuple({cands})') for n in own_nodes(fn.node)):
-            ok = True      # a de-duplicated copy of a duplicate-free candidate list is the same set of pairs
+    cands, args = fn.params[0], fn.params[1]
+    if paths is None:
+        chk.unsure('C06.3s', 'R15', fn.site(), 'prior_combinations_sample', 'too many undecidable tests in the sampler')
+        return
+    bound = {cands: ('role', 'cands'), args: ('role', 'args')}
+    P = lambda src, holes: pattern(m, src, holes, {'cands': ('role', 'cands'), 'args': ('role', 'args')})
+    cap = P('args.combination_number_upper_bound', [])
+    reorderings = [P('cands', []), P('sorted(cands, key=K)', ['K']), P('sorted(cands, key=K, reverse=R)', ['K', 'R']), P('sorted(cands)', []), P('list(cands)', []), P('list(reversed(cands))', []),
+                   P('sorted(set(cands), key=K)', ['K']), P('sorted(set(cands), key=K, reverse=R)', ['K', 'R']), P('list(set(cands))', []), P('sorted(list(cands), key=K)', ['K']), P('list(sorted(cands, key=K))', ['K']),
+                   P('sorted(dict.fromkeys(cands), key=K)', ['K'])]
+    seen = set()
+    for assume, res in paths:
+        if res.unknown is not None or res.returned is None:
+            chk.unsure('C06.3s', 'R15', fn.site(res.unknown) if res.unknown is not None else fn.site(), 'return <selected>', 'a statement outside the path vocabulary decides what the sampler returns')
+            continue
+        if isinstance(res.returned, (ast.List, ast.Tuple)) and not res.returned.elts:
+            continue
+        rt = term_of(fn, res.returned, bound, inline=False)
+        if rt in seen:
+            continue
+        seen.add(rt)
+        site = fn.site(res.returned) if hasattr(res.returned, 'lineno') else fn.site()
+        shown = ast.unparse(res.returned)[:160]
+        ok, why, unsure = False, '', False
+        b = unify(('sub', ('?', 'BASE'), ('slice', ('?', 'LO'), ('?', 'UP'), ('?', 'ST'))), rt)
+        if b is not None:
+            if b['LO'] not in (('none',), ('num', 0)) or b['ST'] != ('none',) or b['UP'] != cap:
+                why = f'the selection `{shown}` is not a prefix of length args.combination_number_upper_bound of the candidate list'
+            elif any(unify(r, b['BASE']) is not None for r in reorderings):
+                ok = True
+            elif any(isinstance(x, tuple) and x and x[0] in ('listcomp', 'genexp') and any(g[1] for g in x[2]) for x in walk_term(b['BASE'])):
+                why = f'the prefix is taken of `{show(b["BASE"])[:80]}`, which is not (a re-ordering of) the whole candidate list: a filter before the cap can return fewer than min(cap, #candidates) pairs'
+            else:
+                unsure = True
         else:
-            why = f'the prefix is taken of `{ast.unparse(base)[:80]}`, which is not (a re-ordering of) the whole candidate list: a filter before the cap can return fewer than min(cap, #candidates) pairs'
-    elif isinstance(v, ast.Call) and m.dotted(v.func) in ('heapq.nsmallest', 'heapq.nlargest') and len(v.args) >= 2 and ast.unparse(v.args[0]) == cap and ast.unparse(v.args[1]) == cands:
-        ok = True
-    else:
-        why = f'the selection `{ast.unparse(v)[:100]}` is not a prefix of length {cap} of the candidate list'
-    chk.expect(ok, 'C06.3s', 'R15', fn.site(defs[0]), ast.unparse(defs[0])[:160], 'the evaluated pairs are the requested pairs reduced only by the cap (a prefix of a re-ordering of the candidate list)', why)
+            for src in ('heapq.nsmallest(CAPV, cands, key=K)', 'heapq.nlargest(CAPV, cands, key=K)', 'heapq.nsmallest(CAPV, cands)', 'random.sample(cands, CAPV)'):
+                bb = unify(P(src, ['CAPV', 'K']), rt)
+                if bb is not None:
+                    ok = bb['CAPV'] == cap or bb['CAPV'] == P('min(args.combination_number_upper_bound, len(cands))', []) or bb['CAPV'] == P('min(len(cands), args.combination_number_upper_bound)', [])
+                    why = '' if ok else f'the selection `{shown}` does not cut at args.combination_number_upper_bound'
+                    break
+            else:
+                # [cands[p] for p in <order>[:cap]] : positions of a permutation
+                bb = unify(P('[cands[p] for p in ORDER[:CAPV]]', ['ORDER', 'CAPV']), rt)
+                if bb is not None and bb['CAPV'] == cap and any(isinstance(x, tuple) and x[:2] == ('call', ('lib', 'numpy.argsort')) for x in walk_term(bb['ORDER'])):
+                    ok = True
+                elif any(unify(r, rt) is not None for r in reorderings):
+                    why = f'the selection `{shown}` is not reduced by the cap at all'
+                elif any(isinstance(x, tuple) and x and x[0] in ('listcomp', 'genexp') and any(g[1] for g in x[2]) for x in walk_term(rt)):
+                    why = f'the selection `{shown}` filters the candidates by a predicate: it can return fewer than min(cap, #candidates) pairs'
+                else:
+                    unsure = True
+        if unsure:
+            chk.unsure('C06.3s', 'R15', site, shown, 'the returned list could not be shown statically to be the candidate list reduced only by the cap')
+        else:
+            chk.expect(ok, 'C06.3s', 'R15', site, shown, 'the evaluated pairs are the requested pairs reduced only by the cap (a prefix of a re-ordering of the candidate list)', why)
 
 
 def cap_writers(repo, chk):
@@ -261,8 +298,11 @@ def cap_writers(repo, chk):
                             sites.append((f, n, par.get(n)))
     for f, n, g in sites:
         from ..match import expected_term
+        cap_e = f'{f.params[1]}.combination_number_upper_bound' if len(f.params) > 1 else 'args.combination_number_upper_bound'
         ok = f.qualname == 'get_combinations_from_columns' and isinstance(n, ast.Assign) and ast.unparse(n.value) == 'MAX_FEATURES_3MR' and isinstance(g, ast.If) \
-            and term_of(f, g.test, inline=False) == expected_term(f.module, f'{f.params[1]}.combination_number_upper_bound > MAX_FEATURES_3MR')
+            and term_of(f, g.test, inline=False) in (expected_term(f.module, f'{cap_e} > MAX_FEATURES_3MR'), expected_term(f.module, f'{cap_e} >= MAX_FEATURES_3MR'))
+        # the same clamp written as min(cap, MAX)
+        ok = ok or (f.qualname == 'get_combinations_from_columns' and isinstance(n, ast.Assign) and term_of(f, n.value, inline=False) in (expected_term(f.module, f'min({cap_e}, MAX_FEATURES_3MR)'), expected_term(f.module, f'min(MAX_FEATURES_3MR, {cap_e})')))
         chk.expect(ok, 'C06.3w', 'R2', f.site(n), ast.unparse(n), 'whitelisted: 3MR clamp of the cap to MAX_FEATURES_3MR', f'{f.qualname} overwrites args.combination_number_upper_bound (an object shared by all batches of a run): later batches are reduced by something other than the configured cap')
     if not sites:
         chk.ok('C06.3w', 'R2', 'outrank', 'no writer of args.combination_number_upper_bound', 'the cap is the configured value')
